@@ -134,7 +134,7 @@ func bigHistory(n, addOrder, remOrder int) []qt.Op {
 			case 1:
 				out[i] = n - 1 - i
 			default:
-				out[i] = (i*11 + 3) % n // 11 is coprime to the 35 pointers
+				out[i] = (i*11 + 3) % n // 11 is coprime to the 35 and to the 160 pointers
 			}
 		}
 		return out
@@ -149,12 +149,34 @@ func bigHistory(n, addOrder, remOrder int) []qt.Op {
 	return h
 }
 
+// deepUniverse: a cluster closing in on the corner (0,0) of the bound, 40 levels deep, with two pointers at the same
+// place and two siblings on every level (so that a walk towards the corner leaves subtrees pending on each level)
+func deepUniverse() *qt.Universe {
+	var pts []orb.Point
+	for j := 0; j < 40; j++ {
+		s := math.Ldexp(1, -j)
+		pts = append(pts, orb.Point{3 * s, 3 * s}, orb.Point{3 * s, 3 * s}, orb.Point{s, 3 * s}, orb.Point{3 * s, s})
+	}
+	mc := make([]int, len(pts))
+	for i := range mc {
+		mc[i] = 1
+	}
+	return qt.NewUniverse(orb.Bound{Min: orb.Point{0, 0}, Max: orb.Point{4, 4}}, pts, mc)
+}
+
 func bigTrees(r *ev.Run, p *ev.Part) {
 	var steps, queries int64
-	for ao := 0; ao < 3; ao++ {
+	for ao := 0; ao < 4; ao++ {
 		for ro := 0; ro < 3; ro++ {
 			u := bigUniverse()
-			hist := bigHistory(len(u.Ps), ao, ro)
+			if ao == 3 {
+				// the deep cluster, added from the outside in
+				if ro > 0 {
+					continue
+				}
+				u = deepUniverse()
+			}
+			hist := bigHistory(len(u.Ps), ao%3, ro)
 			q := quadtree.New(u.Bound)
 			for i, op := range hist {
 				h := hist[:i+1]
@@ -186,6 +208,12 @@ func replayBig(r *ev.Run, p *ev.Part) {
 		return
 	}
 	u := bigUniverse()
+	for _, op := range rc.History {
+		if op.P >= len(u.Ps) {
+			u = deepUniverse()
+			break
+		}
+	}
 	q := quadtree.New(u.Bound)
 	for i, op := range rc.History {
 		after, ok := step(u, q, op, func(c, d string) { p.Fail(c, fmt.Sprintf("step %d: %s", i, d), nil) })
@@ -775,7 +803,7 @@ func main() {
 	r.Custom(part, fmt.Sprintf("%d pointers, all three mutations, search to closure (fixpoint)", n), func(p *ev.Part) { bfs(r, p, n, -1) })
 	r.Sample(map[string]interface{}{"deepest_history": r.Extra["deepest_history_sample"]})
 	// size: trees far larger and deeper than the closures above, along 9 fixed histories
-	r.Custom("big-trees", "35 pointers (the 5x5 lattice of the bound, 8 points closing in on the centre along the diagonal - one tree level each -, a second pointer at (1,1), (2.5,2.5)) added in 3 orders and then removed in 3 orders (by identity and by point in turn): after every one of the 9 x 70 steps the structural invariants and every query of the query menu against the brute-force reference", func(p *ev.Part) { bigTrees(r, p) })
+	r.Custom("big-trees", "35 pointers (the 5x5 lattice of the bound, 8 points closing in on the centre along the diagonal - one tree level each -, a second pointer at (1,1), (2.5,2.5)) added in 3 orders and then removed in 3 orders (by identity and by point in turn), and 160 pointers closing in on the corner (0,0) over 40 levels (two at the same place and two siblings per level) added from the outside in and removed again: after every one of the 9 x 70 + 320 steps the structural invariants and every query of the query menu against the brute-force reference", func(p *ev.Part) { bigTrees(r, p) })
 	ns := ev.Pick(r, 5, 6)
 	r.Custom(fmt.Sprintf("bfs-skew-%dp", ns), fmt.Sprintf("non-dyadic tree bound [0.2,2.2]x[0.1,0.7]: %d pointers on the root midlines (by either formula, and one ulp off), corners and a second-level midline; boxes with edges through exactly those values; search to closure", ns), func(p *ev.Part) {
 		setSkew()
